@@ -280,9 +280,9 @@ def setup_line(case):
         rat(case['z']), rat(case['n']), rat(case['q']), case['s'])
 
 
-def model_requests(case, obs, rng):
+def model_requests(case, obs, rng, head=None):
     M = obs['reg']['M']
-    lines = [setup_line(case)]
+    lines = list(head) if head is not None else [setup_line(case)]
     pix = [(0, 0), (M[0] - 1, M[1] - 1), (M[0] // 2, M[1] // 2), (0, M[1] - 1)]
     for _ in range(4):
         pix.append((int(rng.integers(0, M[0])), int(rng.integers(0, M[1]))))
@@ -425,6 +425,151 @@ def compare_model(ctx, case, obs, pix, answers):
                      'detail': 'forward() differs from crop(ifftn(D * fftn(pad(x)))) with the model cut-out'})
 
 
+
+# ---------------------------------------------------------------------------------------------
+# one propagator object used repeatedly: forward / backward in alternating precisions, several wavelengths,
+# distance / refractive_index / num_oversampling / zero_padding re-assigned between calls (also across the
+# sampling limit).  Every result must equal that of a fresh propagator built with the current parameters, and the
+# regime clauses must hold on the reused object.
+
+TOL64 = 2e-4
+SETTERS = {'distance': 'z', 'refractive_index': 'n', 'num_oversampling': 's', 'zero_padding': 'q', 'wavelength': 'lam'}
+
+
+def gen_session(rng, big=False):
+    case = gen_case(rng, big)
+    if case['kind'] == 'fresnel' and rng.random() < 0.4:
+        case['q'], case['s'] = 1.0, 1
+    nx, ny = case['dims']
+    dx, dy = case['delta']
+    ops = []
+    cur = dict(case)
+    style = ['precision', 'setters', 'roundtrip', 'mixed'][int(rng.integers(0, 4))]
+    n = int(rng.integers(3, 8))
+    for i in range(n):
+        if style in ('setters', 'mixed') and rng.random() < 0.55:
+            names = ['distance', 'distance', 'refractive_index', 'num_oversampling', 'wavelength'] + (['zero_padding'] if case['kind'] == 'fresnel' else [])
+            name = names[int(rng.integers(0, len(names)))]
+            if name == 'distance':
+                zmax = min(dx, dy) * max(nx * dx, ny * dy) / cur['lam']
+                r = rng.random()
+                v = zmax * int(rng.integers(1, 65)) / 64.0 if r < 0.55 else (zmax * (1 + int(rng.integers(1, 17)) / 8.0) if r < 0.9 else 0.0)
+                v = -v if rng.random() < 0.5 else v
+            elif name == 'refractive_index':
+                v = [1.0, 1.25, 1.5, 2.0][int(rng.integers(0, 4))]
+            elif name == 'num_oversampling':
+                v = int(rng.integers(1, 4))
+            elif name == 'zero_padding':
+                g = math.gcd(nx, ny)
+                v = [1.0, 2.0, 1.0 + 1.0 / g, 3.0][int(rng.integers(0, 4))]
+            else:
+                v = [1 / 16, 1 / 8, 1 / 4, 1 / 2, 1.0][int(rng.integers(0, 5))]
+            ops.append({'op': 'set', 'name': name, 'value': v})
+            cur[SETTERS[name]] = v
+        dt = 'c64' if style in ('precision', 'mixed') and rng.random() < 0.5 else 'c128'
+        kind = 'fwd' if rng.random() < 0.65 else 'bwd'
+        if style == 'roundtrip':
+            kind = ['fwd', 'bwd'][i % 2]
+        ops.append({'op': kind, 'dtype': dt, 'salt': i})
+    ops.append({'op': 'fwd', 'dtype': 'c128', 'salt': 0})
+    return {'case': case, 'ops': ops, 'style': style}
+
+
+def directed_sessions():
+    out = []
+    for kind in ('fresnel', 'angular'):
+        base = {'kind': kind, 'dims': [8, 6], 'delta': [0.25, 0.25], 'zero': [-0.875, -0.625], 'lam': 1 / 16, 'z': 0.5, 'z2': 0.25, 'n': 1.0,
+                'q': 1.0 if kind == 'fresnel' else 2.0, 's': 1, 'wf': 'scalar', 'stokes': None, 'fseed': 5}
+        out.append({'case': base, 'style': 'precision', 'ops': [
+            {'op': 'fwd', 'dtype': 'c64', 'salt': 0}, {'op': 'fwd', 'dtype': 'c128', 'salt': 1}, {'op': 'bwd', 'dtype': 'c128', 'salt': 2},
+            {'op': 'bwd', 'dtype': 'c64', 'salt': 3}, {'op': 'fwd', 'dtype': 'c128', 'salt': 0}]})
+        out.append({'case': base, 'style': 'setters', 'ops': [
+            {'op': 'fwd', 'dtype': 'c128', 'salt': 0}, {'op': 'set', 'name': 'distance', 'value': 40.0}, {'op': 'fwd', 'dtype': 'c128', 'salt': 1},
+            {'op': 'set', 'name': 'distance', 'value': -1.0}, {'op': 'bwd', 'dtype': 'c128', 'salt': 2},
+            {'op': 'set', 'name': 'refractive_index', 'value': 1.5}, {'op': 'fwd', 'dtype': 'c128', 'salt': 3},
+            {'op': 'set', 'name': 'num_oversampling', 'value': 3}, {'op': 'fwd', 'dtype': 'c128', 'salt': 4},
+            {'op': 'set', 'name': 'wavelength', 'value': 1 / 8}, {'op': 'fwd', 'dtype': 'c128', 'salt': 5},
+            {'op': 'set', 'name': 'wavelength', 'value': 1 / 16}, {'op': 'fwd', 'dtype': 'c128', 'salt': 0}]})
+    return out
+
+
+def _typed_field(case, grid, salt, dtype):
+    import hcipy
+    f = make_field(case, grid, salt)
+    return hcipy.Field(np.asarray(f).astype(dtype), grid)
+
+
+def oracle_session(sess, observe=None):
+    import hcipy
+    bad = []
+    case = sess['case']
+    cur = dict(case)
+    grid = build_grid(case)
+    prop = build_prop(case, grid, case['z'])
+    prev = 'fresh'
+    last_fwd = None
+    for op in sess['ops']:
+        if op['op'] == 'set':
+            name, v = op['name'], op['value']
+            cur[SETTERS[name]] = v
+            if name != 'wavelength':
+                setattr(prop, name, v)
+            prev += '>set-' + name
+            continue
+        dtype = np.complex64 if op['dtype'] == 'c64' else np.complex128
+        tol = TOL64 if op['dtype'] == 'c64' else TOL
+        x = _typed_field(cur, grid, op['salt'], dtype)
+        fresh = build_prop(cur, grid, cur['z'])
+        method = 'forward' if op['op'] == 'fwd' else 'backward'
+        tag = '%s/%s' % (cur['kind'], 'ir' if exact_regime(cur)['ir'] else 'tf')
+        try:
+            got = getattr(prop, method)(make_wavefront(cur, x.copy()))
+            want = getattr(fresh, method)(make_wavefront(cur, x.copy()))
+        except Exception as e:
+            bad.append(('reuse raises %s %s' % (type(e).__name__, tag), '%s raised %s: %s (history %s)' % (method, type(e).__name__, e, prev)))
+            prev += '>' + op['op']
+            continue
+        g, w = np.asarray(got.electric_field), np.asarray(want.electric_field)
+        dev = float(np.abs(g - w).max())
+        scale = max(1.0, float(np.abs(w).max()))
+        had64 = '(c64)' in prev
+        if not dev <= tol * scale:
+            last = prev.split('>')[-1]
+            key = 'reuse-%s after-%s%s %s' % (method, last, '+earlier-c64' if had64 and op['dtype'] == 'c128' else '', tag)
+            bad.append((key, '%s on a reused propagator (history %s) differs from a fresh propagator with the current parameters by %.3g (scale %.3g, %s)'
+                        % (method, prev, dev, scale, op['dtype'])))
+        reg = exact_regime(cur)
+        near = abs(reg['slack']) <= Fraction(1, 10 ** 7) * max(Fraction(cur['delta'][0]), Fraction(cur['delta'][1]))
+        if op['dtype'] == 'c128' and op['op'] == 'fwd' and reg['stated'] and not near and cur['kind'] == 'fresnel' and cur['q'] == 1.0 and cur['s'] == 1:
+            # the third clause on the reused object itself
+            ex = wf_field(cur, x)
+            back = np.asarray(prop.backward(got).electric_field)
+            d = float(np.abs(back - ex).max())
+            if not d <= TOL * max(1.0, float(np.abs(ex).max())):
+                bad.append(('reuse-inverse%s %s' % ('+earlier-c64' if had64 else '', tag),
+                            'backward(forward(x)) on a reused propagator (history %s) differs from x by %.3g' % (prev, d)))
+            p_in, p_out = float(make_wavefront(cur, x.copy()).total_power), float(got.total_power)
+            if not abs(p_out - p_in) <= TOL * max(1.0, p_in):
+                bad.append(('reuse-unitary%s %s' % ('+earlier-c64' if had64 else '', tag), 'power %r -> %r on a reused propagator (history %s)' % (p_in, p_out, prev)))
+        if op['op'] == 'fwd' and op['dtype'] == 'c128':
+            last_fwd = (wf_field(cur, x), g)
+        prev += '>' + op['op'] + ('(c64)' if op['dtype'] == 'c64' else '')
+    if observe is not None and last_fwd is not None:
+        reg = exact_regime(cur)
+        near = abs(reg['slack']) <= Fraction(1, 10 ** 7) * max(Fraction(cur['delta'][0]), Fraction(cur['delta'][1]))
+        observe.update({'grid': grid, 'prop': prop, 'reg': reg, 'near_boundary': near, 'ex': last_fwd[0], 'efx': last_fwd[1], 'cur': cur})
+    return bad
+
+
+def session_head(sess):
+    lines = [setup_line(sess['case'])]
+    for op in sess['ops']:
+        if op['op'] == 'set':
+            v = op['value']
+            lines.append('C04 set %s %s' % (op['name'], str(int(v)) if op['name'] == 'num_oversampling' else rat(v)))
+    lines.append('C04 info')
+    return lines
+
 # ---------------------------------------------------------------------------------------------
 
 def run(ctx):
@@ -468,6 +613,38 @@ def run(ctx):
         answers = ctx.model(all_lines)
         for (case, obs, pix), (a, k) in zip(kept, spans):
             compare_model(ctx, case, obs, pix, answers[a:a + k])
+        # reuse of one object
+        ns = ctx.scale(220, 3000)
+        sessions = directed_sessions() + [gen_session(ctx.rng, big=(ctx.tier == 'thorough' and k % 4 == 0)) for k in range(ns)]
+        s_lines, s_kept = [], []
+        for sess in sessions:
+            obs = {}
+            bad = oracle_session(sess, observe=obs)
+            for key, what in bad:
+                ctx.violation(key, what, {'session': sess})
+            kinds = [(o['op'] + ('64' if o.get('dtype') == 'c64' else '')) if o['op'] != 'set' else 'set-' + o['name'] for o in sess['ops']]
+            ctx.count('session:' + sess['style'])
+            for a, b in zip(kinds, kinds[1:]):
+                ctx.count('session-transition:%s>%s' % (a, b))
+            branches = set()
+            cur = dict(sess['case'])
+            for o in sess['ops']:
+                if o['op'] == 'set':
+                    cur[SETTERS[o['name']]] = o['value']
+                else:
+                    branches.add(exact_regime(cur)['ir'])
+            if len(branches) == 2:
+                ctx.count('session:crosses-sampling-limit')
+            ctx.case(None, nontrivial_key=('session', sess['style'], tuple(kinds), sess['case']['kind'], tuple(sess['case']['dims'])))
+            if 'prop' not in obs:
+                continue
+            head = session_head(sess)
+            lines, pix = model_requests(obs['cur'], obs, ctx.rng, head=head)
+            s_kept.append((obs['cur'], obs, pix, len(s_lines), len(lines), len(head)))
+            s_lines += lines
+        s_answers = ctx.model(s_lines)
+        for cur, obs, pix, a, k, nh in s_kept:
+            compare_model(ctx, cur, obs, pix, s_answers[a + nh - 1:a + k])
     if ctx.boundary_skipped > 0.10 * max(1, ctx.evaluations):
         raise MachineryError('too many boundary-skipped cases (%d of %d)' % (ctx.boundary_skipped, ctx.evaluations))
 
@@ -475,7 +652,7 @@ def run(ctx):
 def replay(ctx, case):
     with warnings.catch_warnings():
         warnings.simplefilter('ignore')
-        bad = oracle_case(case)
+        bad = oracle_session(case['session']) if 'session' in case else oracle_case(case)
     for key, what in bad:
         print('  fails:', key, '-', what)
     return not bad
